@@ -275,6 +275,14 @@ def uInsert (s : State) (h : Nat) (k : XKind) (pos : Int) (val : Option (List By
     | .fail s1 e => .fail s1 e
     | .fault w => .fault w
 
+/-- `Elem val; typed_array<Elem>::insert(pos, val)` as the harness performs it: a temporary source element is
+    constructed by the caller, copied into the inserted slot and destroyed afterwards -/
+def uInsertE (s : State) (h : Nat) (k : XKind) (pos : Int) : Out Unit :=
+  match uInsert (sourcesInit s 1) h k pos none (some s.next) with
+  | .ok s' u => .ok (sourcesFini s' s.next 1) u
+  | .fail s' e => .fail (sourcesFini s' s.next 1) e
+  | .fault w => .fault w
+
 /-- `unique_array::set(pos, v)` for plain element types: `detach(); begin()[pos] = v` -/
 def uSet (s : State) (h : Nat) (k : XKind) (pos : Int) (val : List Byte) : Out Unit :=
   let len := xLength s h k
